@@ -118,7 +118,10 @@ def c04_builtin_post(name, args, result, ok, rec, pre, nested_mutators):
         if isinstance(a, str) and name == 'int':
             widest = max(widest, len(a))       # a digit string passed to int() counts by its length
     t = max(1, len(nums))
-    bound = max(28, widest + (t if name == 'sum' else 1))
+    if name == 'sum' and any(not isinstance(x, Decimal) for x in nums):
+        bound = max(28, widest + len(str(t)))      # an exact sum of t host ints carries at most log10(t) digits
+    else:
+        bound = max(28, widest + 1)
     d = d_res(result)
     if d > bound:
         cause = 'other'
